@@ -149,13 +149,28 @@ def main():
                 checker_cmd += ' && lake env leanchecker ' + ' '.join(mod.LEAN_TARGETS)
                 log('leanchecker ok')
     # 4. correspondence model <-> impl
+    def guarded(name, fn):
+        """An unexpected exception inside a harness run against the real code means the code left the
+        behaviour the harness was written for: it is reported like a correspondence that no longer checks
+        (with the traceback in the replay), not as a bare crash."""
+        try:
+            fn(ctx)
+            return True
+        except C.InfraError:
+            raise
+        except Exception:
+            tb = traceback.format_exc()
+            log('%s raised:\n%s' % (name, tb[-1500:]))
+            broken.append({'obligation': 'correspondence:%s-raised-%s' % (name, tb.strip().splitlines()[-1][:80]),
+                           'detail': tb[-4000:]})
+            return False
     try:
         if not any(b['obligation'].startswith('lean:') for b in broken) or a.no_lean or drivers_ok:
-            mod.correspondence(ctx)
+            guarded('correspondence', mod.correspondence)
             log('correspondence: %d evaluations, %d disagreements' % (
                 ctx.report.evaluations, len(ctx.report.disagreements)))
         # 5. impl-level oracle of the property itself
-        mod.oracle(ctx)
+        guarded('oracle', mod.oracle)
         log('oracle: %d evaluations total, %d impl-level failures' % (
             ctx.report.evaluations, len(ctx.report.violations)))
     except C.InfraError as e:
@@ -172,6 +187,8 @@ def main():
         except C.InfraError as e:
             print('infrastructure error during search:', e)
             return 2
+        except Exception:
+            log('search raised:\n' + traceback.format_exc()[-1500:])
     # 7. verdict
     known = [k for k in C.known_findings() if k['property'] == pid and k['status'] == 'known']
     classify = getattr(mod, 'classify', lambda v: v.get('class'))
